@@ -6,6 +6,7 @@
 (*                  the environment and on the command line (all 8 subsets of *)
 (*                  the three sources x the spellings of Vocab).              *)
 (*   Mode "unk"   : unknown names and ill-typed siblings next to an option.   *)
+(*   Mode "pair"  : the two options of a conflict given by different sources. *)
 (*   Mode "table" : every assignment of default / non-default to the options  *)
 (*                  of the implication table with at most MaxWeight           *)
 (*                  non-default ones (MaxWeight = all: the full product).     *)
@@ -63,6 +64,31 @@ UnkCases ==
     \cup { [fstate |-> f, file |-> {[name |-> "username", text |-> "alpha"]},
             env |-> {[name |-> "loglevel", text |-> "beta"]}, cli |-> {}] : f \in {"missing", "nosection"} }
 
+(* ---- conflicting pairs, the two options coming from DIFFERENT sources ---- *)
+(* Mode "pair": for every pair (a, b) that C16 says must be refused together  *)
+(* (obfuscate_hostname without obfuscate; offline with a network action),     *)
+(* the file and the environment each leave a and b unset, turn them on or     *)
+(* turn them off, in every combination (81 per pair); with Vocab = "big" the  *)
+(* command line additionally gives each switch that exists or not.  Whether   *)
+(* the combination conflicts is a question about the MERGED values only.      *)
+ConflictPairs == ({<<"obfuscate_hostname", "obfuscate">>}
+                  \cup {<<"offline", NetActions[i]>> : i \in DOMAIN NetActions})
+                 \cap (OptNames \X OptNames)
+Tri == {"unset", "on", "off"}
+TriWord(layer, n, v) ==
+    IF layer = "env" THEN (IF v = "on" THEN "True" ELSE "false")
+    ELSE IF TypeOf(n) = "bool" THEN (IF v = "on" THEN "yes" ELSE "off")
+    ELSE (IF v = "on" THEN "True" ELSE "")                   \* untyped in the file: any non-empty text is true
+TriRows(layer, n, v) == IF v = "unset" THEN {} ELSE {[name |-> n, text |-> TriWord(layer, n, v)]}
+CliChoice(n) == IF Big /\ CliKind(n) = "flag_true" THEN {"unset", "on"} ELSE {"unset"}
+CliRows(n, v) == IF v = "on" THEN {[name |-> n, has |-> FALSE, arg |-> ""]} ELSE {}
+PairCases ==
+    { [fstate |-> "ok",
+       file |-> TriRows("file", x[1][1], x[2]) \cup TriRows("file", x[1][2], x[3]),
+       env  |-> TriRows("env", x[1][1], x[4]) \cup TriRows("env", x[1][2], x[5]),
+       cli  |-> CliRows(x[1][1], x[6][1]) \cup CliRows(x[1][2], x[6][2])] :
+        x \in UNION { {pr} \X Tri \X Tri \X Tri \X Tri \X (CliChoice(pr[1]) \X CliChoice(pr[2])) : pr \in ConflictPairs } }
+
 (* ---- the implication / validation table ---- *)
 ExtOpts   == TableOpts \cup ({"analyze_container", "analyze_file", "use_atomic", "enable_schedule", "disable_schedule",
                               "payload", "content_type", "compressor", "module", "app", "net_debug", "legacy_upload",
@@ -108,6 +134,7 @@ Pick ==
     /\ phase = "pick"
     /\ CASE Mode = "prec"   -> \E l \in PrecCases : Start(l, {})
          [] Mode = "unk"    -> \E l \in UnkCases : Start(l, {})
+         [] Mode = "pair"   -> \E l \in PairCases : Start(l, {})
          [] Mode = "table"  -> \E f \in EffCases(TableOpts) : Start(LayOfEff(f), EffSet(f))
          [] Mode = "ext"    -> \E f \in EffCases(ExtOpts) : Start(LayOfEff(f), EffSet(f))
          [] Mode = "rtable" -> \E A \in {RandomSubset(RandomElement(0..Cardinality(TableOpts)), TableOpts)} :
